@@ -60,7 +60,9 @@ def o_sorter(ctx):
 UNIVERSE = [('N', 10), ('CA', 10), ('CB', 10), ('N', 11), ('CA', 11)]
 
 
-def mk_topup(nconf):
+def mk_topup(nconf, universe=None):
+    UNIV = universe or UNIVERSE
+
     def body(ctx):
         p = H.params()
         mol = H.molecule(p)
@@ -71,7 +73,7 @@ def mk_topup(nconf):
         for nm in names:
             conf = H.conformation(nm, p=p, mol=mol)
             originals[nm] = []
-            for (an, rn) in UNIVERSE:
+            for (an, rn) in UNIV:
                 if ctx.choice('present_%s_%s%d' % (nm, an, rn), [False, True]):
                     a = H.atom(an, resname10[nm] if rn == 10 else 'GLY', rn, 'A', 1.0, 2.0, 3.0)
                     conf.add_atom(a)
@@ -196,6 +198,9 @@ def obligations(tier):
                           bounds='2 conformations x 5 atom identities (2 residues) with presence chosen by fork; residue 10 ALA or SER per conformation',
                           claim_doc='originals kept; never two residue types at one position; agreed positions completed to the union',
                           max_paths=100000, shards=8, wall_s=170))
+    obs.append(Obligation('O2-top-up[3 conformations, one residue]', mk_topup(3, universe=[('N', 10), ('CA', 10), ('CB', 10)]), code=obs[-1].code,
+                          bounds='3 conformations x 3 atom identities of one residue with presence chosen by fork; residue ALA or SER per conformation',
+                          claim_doc=obs[-1].claim_doc, max_paths=200000, shards=8, wall_s=170))
     obs.append(Obligation('O3-average-over-containing-conformations[K=2]', mk_average_presence(2),
                           code=[M + 'average_of_conformations', 'propka/conformation_container.py:ConformationContainer.find_group',
                                 'propka/group.py:Group.clone', 'propka/group.py:Group.__iadd__', 'propka/group.py:Group.__truediv__'],
